@@ -1,5 +1,6 @@
 import Amgcl.Properties.C08b
 import Amgcl.Proofs.KernelsValue
+import Amgcl.Proofs.KernelsValuePw
 import Mathlib.Analysis.Matrix.Normed
 /-!
 # C08 — sparse kernels at STRUCTURED value types (part 3: block / complex values)
@@ -34,6 +35,19 @@ theorem scaleV_scalar {K : Type} [Add K] [Mul K] [Zero K] (A : CRS K) (s : K) :
 
 example : gershgorinV (absK : Rat → Rat) (fun v => v⁻¹) 1 true (⟨2, #[[(1, (-3 : Rat)), (0, 2)], [(1, 4)]]⟩ : CRS Rat) = 5 / 2 := by
   decide +kernel
+
+/-- `pointwise_matrix` with the norms taken first (`pointwiseMatrixV`: the only way the kernel reads a value) is the model
+`pointwiseMatrix` of `Model/PointwiseMatrix.lean` (C04: `pointwise_spec`, `pointwise_matrix_kron`) when `V = S` -/
+theorem pointwiseV_scalar {K : Type} [Zero K] [LT K] [DecidableLT K] (norm : K → K) (A : CRS K) (b : Nat) :
+    pointwiseMatrixV norm A b = pointwiseMatrix norm A b :=
+  KV.pointwiseMatrixV_eq norm A b
+
+-- a block-valued instance: pairs `(a, b)` standing for `diag(a, b)` with `norm = |a| + |b|`, group size 2: one group, the
+-- largest norm of its three stored values
+example : (match pointwiseMatrixV (fun v : Int × Int => v.1.natAbs + v.2.natAbs)
+      (⟨2, #[[(0, ((1 : Int), (-2 : Int))), (1, (3, 3))], [(1, (0, 5))]]⟩ : CRS (Int × Int)) 2 with
+    | .ok C => (C.ncols, C.rows)
+    | _ => (0, #[])) = (1, #[[(0, 6)]]) := by decide +kernel
 
 /-- **`scale` at block values**: every stored value is multiplied by the weight through `v *= s` of the value type, the
 pattern (hence `ptr`, `col`) is untouched -/
